@@ -127,6 +127,62 @@ PROBE_YIELD = [
 ]
 
 
+CLOSE_AFTER_YIELD = (
+    "local function probe(tag, wrap)\n"
+    "  local inner_used\n"
+    "  local ctx = runtime.callcontext({kill={cpu=1000000}}, function()\n"
+    "    local k0 = runtime.context().kill.cpu\n"
+    "    local co = coroutine.create(function() wrap(function() local x = 0 for i = 1, 50 do x = x + i end coroutine.yield(1) end) end)\n"
+    "    coroutine.resume(co)\n"
+    "    local closed = coroutine.close(co)\n"
+    "    local k1 = runtime.context().kill.cpu\n"
+    "    local x = 0 for i = 1, 100 do x = x + i end\n"
+    "    inner_used = runtime.context().used.cpu\n"
+    "    emit('K', tag, closed, k0, k1)\n"
+    "    return 'R'\n"
+    "  end)\n"
+    "  emit('S', tag, ctx.status, ctx.kill.cpu, ctx.used.cpu >= inner_used, runtime.context().kill.cpu or 0)\n"
+    "end\n"
+    "probe('pcall', pcall)\n"
+    "probe('xpcall', function(f) return xpcall(f, print) end)\n"
+    "probe('callcontext', function(f) return runtime.callcontext({}, f) end)\n"
+    "probe('pcall-pcall', function(f) return pcall(pcall, f) end)\n"
+    "probe('callcontext-limited', function(f) return runtime.callcontext({kill={cpu=5000}}, f) end)\n")
+
+
+def close_after_yield_leg(ctx, runner):
+    """a coroutine that yields inside a nested context and is closed (coroutine.close: the threadClose panic is a
+    non-termination panic that CallContext must pop for before re-panicking) before the enclosing limited context
+    ends: afterwards the active context is the enclosing one again, and it is the one callcontext hands back,
+    charged with everything"""
+    r = luaquota.run_batch(runner, [("close-after-yield", CLOSE_AFTER_YIELD)]).get("close-after-yield")
+    ctx.case(CLOSE_AFTER_YIELD, True)
+    replay = "c07 lua\n" + CLOSE_AFTER_YIELD
+    tr = [luaquota.dec(x) if x.startswith("s") else x for x in r.trace]
+    if r.cls != "ok":
+        ctx.violation("context-stack-misaligned:close-after-yield-in-nested-context:" + r.cls, "chunk ended %s (%s)" % (r.cls, luaquota.msg_of(r)[:120]), replay)
+        return
+    seen = 0
+    for i in range(len(tr)):
+        if tr[i] == "K" and i + 4 < len(tr):
+            tag, closed, k0, k1 = tr[i + 1:i + 5]
+            if closed != "t" or k0 != "i1000000" or k1 != "i1000000":
+                ctx.violation("context-stack-misaligned:close-after-yield-in-nested-context:" + tag, "after coroutine.close of a coroutine "
+                              "suspended inside %s the active context has kill.cpu %s (enclosing context: %s), close returned %s"
+                              % (tag, k1, k0, closed), replay)
+        if tr[i] == "S" and i + 5 < len(tr):
+            seen += 1
+            tag, status, kill, charged, outer = tr[i + 1:i + 6]
+            if (status, kill, charged, outer) != ("done", "i1000000", "t", "i0"):
+                ctx.violation("context-stack-misaligned:close-after-yield-in-nested-context:" + tag, "callcontext handed back status %s "
+                              "kill.cpu %s, fully charged: %s; kill.cpu of the context active afterwards: %s (expected done, 1000000, "
+                              "t, 0)" % (status, kill, charged, outer), replay)
+    ctx.count("close-after-yield:variants", seen)
+    if seen != 5:
+        ctx.violation("context-stack-misaligned:close-after-yield-in-nested-context:incomplete", "only %d of 5 variants completed: %s"
+                      % (seen, tr[-8:]), replay)
+
+
 def parse_events(trace):
     """split the host trace into events (lists) starting at the markers O F RAISE END"""
     marks = {luaquota.hexs(m): m for m in ("O", "F", "RAISE", "END")}
@@ -231,6 +287,7 @@ def lua_leg(ctx, n):
         quotaprobes.callback_leg(ctx, runner, res, prefix="c07", sites={
             "close-normal-exit", "close-error-exit", "close-error-exit-of-context", "close-error-exit-inner-context",
             "xpcall-handler", "xpcall-handler-in-pcall"})
+    close_after_yield_leg(ctx, runner)
     # the coroutine/pcall interleaving that breaks the bracket discipline
     for pid, src in PROBE_YIELD:
         r = luaquota.run_batch(runner, [(pid, src)]).get(pid)
